@@ -59,6 +59,20 @@ pub enum Stmt {
     HoldToken,
     /// abort the command registered under this handle (e.g. the task's own command: a watchdog)
     AbortCmd(u32),
+    /// create an unbounded channel `c` and spawn `task` holding one end of it; this task keeps the
+    /// other end. `child_sends`: the child is the producer (it may `ChanSend(c)`), else the consumer.
+    SpawnChan { c: u32, child_sends: bool, task: Task, slot: Option<u32> },
+    /// send the current value into channel `c` (never blocks; ignored if the receiver is gone)
+    ChanSend(u32),
+    /// receive from channel `c` into the current value; blocks while the sender is alive; a closed,
+    /// empty channel yields `chan_closed(current value)`
+    ChanRecv(u32),
+}
+
+/// what a receive on a closed, empty channel makes of the current value (injective, so that values
+/// stay attributable)
+pub fn chan_closed(acc: u64) -> u64 {
+    acc.wrapping_mul(7).wrapping_add(0xC105_ED00)
 }
 
 #[derive(Clone, Debug, PartialEq, Eq, Serialize, Deserialize, Hash)]
@@ -167,7 +181,7 @@ impl Stmt {
     pub fn size(&self) -> usize {
         match self {
             Stmt::StreamLoop { body, .. } => 1 + body.iter().map(Stmt::size).sum::<usize>(),
-            Stmt::Spawn { task, .. } => 1 + task.size(),
+            Stmt::Spawn { task, .. } | Stmt::SpawnChan { task, .. } => 1 + task.size(),
             Stmt::JoinAll(ts) | Stmt::SelectFirst(ts) => 1 + ts.iter().map(Task::size).sum::<usize>(),
             Stmt::Emit { cont, .. } => 1 + cont.as_ref().map_or(0, |c| c.size()),
             Stmt::AwaitChain { stages, .. } => 1 + stages.len(),
@@ -178,7 +192,7 @@ impl Stmt {
         fs(self);
         match self {
             Stmt::StreamLoop { body, .. } => body.iter().for_each(|s| s.visit(fc, fs)),
-            Stmt::Spawn { task, .. } => task.visit(fc, fs),
+            Stmt::Spawn { task, .. } | Stmt::SpawnChan { task, .. } => task.visit(fc, fs),
             Stmt::JoinAll(ts) | Stmt::SelectFirst(ts) => ts.iter().for_each(|t| t.visit(fc, fs)),
             Stmt::Emit { cont: Some(c), .. } => c.visit(fc, fs),
             _ => {}
